@@ -533,13 +533,16 @@ static void enumerate_c04(void)
 
 /* ================================================================== C19: callback programs */
 #define NCBOPS 17
-static const char *cbop_name[NCBOPS] = { "claim_del(exp)", "claim_del(nbf)", "claim_del(iss)", "claim_del(sub)", "claim_del(aud)", "claim_del(all)",
+static const char *cbop_name[NCBOPS + 3] = { "claim_del(exp)", "claim_del(nbf)", "claim_del(iss)", "claim_del(sub)", "claim_del(aud)", "claim_del(all)",
 	"claim_set(exp=future,replace)", "claim_set(nbf=past,replace)", "claim_set(iss=good,replace)", "claim_set(sub=good,replace)",
 	"claim_set(aud=good,replace)", "claim_merge(all good,replace)", "header_set(alg=none,replace)", "header_set(alg=HS256,replace)",
-	"header_del(alg)", "header_del(all)", "get(claims,alg)" };
+	"header_del(alg)", "header_del(all)", "get(claims,alg)",
+	/* configuration edits: only in vetoing programs, and (the first) in accepting programs against a keyed baseline */
+	"config(key=HS,alg=HS256)", "config(key=HS)", "config(key=NULL,alg=none)" };
+#define NCBOPS_ALL 20
 static const char *cbop_class(int op)
 {
-	return op < 6 ? "claim_del" : op < 11 ? "claim_set" : op == 11 ? "claim_merge" : op < 14 ? "header_set" : op < 16 ? "header_del" : "get";
+	return op < 6 ? "claim_del" : op < 11 ? "claim_set" : op == 11 ? "claim_merge" : op < 14 ? "header_set" : op < 16 ? "header_del" : op == 16 ? "get" : "config";
 }
 
 typedef struct {
@@ -547,7 +550,7 @@ typedef struct {
 	int ran;
 } prog_t;
 
-static void run_cbop(jwt_t *jwt, int op)
+static void run_cbop(jwt_t *jwt, jwt_config_t *cfg, int op)
 {
 	jwt_value_t v;
 	static const char *names[] = { "exp", "nbf", "iss", "sub", "aud" };
@@ -592,6 +595,15 @@ static void run_cbop(jwt_t *jwt, int op)
 		jwt_header_get(jwt, &v);
 		(void)jwt_get_alg(jwt);
 		break;
+	case 17:
+		cfg->key = jwks_item_get(hset, 0); cfg->alg = JWT_ALG_HS256;
+		break;
+	case 18:
+		cfg->key = jwks_item_get(hset, 0);
+		break;
+	case 19:
+		cfg->key = NULL; cfg->alg = JWT_ALG_NONE;
+		break;
 	}
 }
 
@@ -600,7 +612,7 @@ static int prog_cb(jwt_t *jwt, jwt_config_t *cfg)
 	prog_t *p = cfg->ctx;
 	p->ran++;
 	for (int i = 0; i < p->n; i++)
-		run_cbop(jwt, p->op[i]);
+		run_cbop(jwt, cfg, p->op[i]);
 	return p->ret;
 }
 
@@ -697,32 +709,31 @@ static void c19_cell(const prog_t *prog, int mask, int keyed, int payload, int s
 	free(tok);
 }
 
-static void enumerate_c19(void)
+/* every program of length <= maxlen over the first `alphabet` operations (optionally after a fixed first operation), each return value */
+static void c19_programs(int alphabet, int maxlen, const int *rets, int nrets, int first)
 {
-	vk_oct_bytes(7, HKEY, sizeof HKEY);
-	char *jt = vk_oct_jwk(HKEY, sizeof HKEY, NULL, NULL);
-	hset = jwks_create(jt);
-	free(jt);
-	int maxlen = vf_thorough ? 4 : 2;
 	for (int len = 0; len <= maxlen; len++) {
 		int total = 1;
 		for (int i = 0; i < len; i++)
-			total *= NCBOPS;
+			total *= alphabet;
 		for (int code = 0; code < total; code++) {
-			prog_t p = { len, { 0, 0, 0, 0 }, 0, 0 };
-			int c = code;
+			prog_t p = { 0, { 0, 0, 0, 0 }, 0, 0 };
+			int c = code, off = first >= 0;
+			if (off)
+				p.op[0] = first;
+			p.n = len + off;
 			for (int i = len - 1; i >= 0; i--) {
-				p.op[i] = c % NCBOPS;
-				c /= NCBOPS;
+				p.op[i + off] = c % alphabet;
+				c /= alphabet;
 			}
 			n_progs++;
-			for (int ret = 0; ret < 2; ret++) {
-				/* non-zero returns: only for programs up to length 1 (the return value, not the edits, decides) */
-				if (ret && len > 1)
+			for (int ri = 0; ri < nrets; ri++) {
+				/* longer vetoing programs: one return value each, rotating */
+				if (nrets > 1 && len > 1 && ri != code % nrets)
 					continue;
-				p.ret = ret ? (code % 2 ? -1 : 1) : 0;
+				p.ret = rets[ri];
 				for (unsigned m = 0; m < sizeof CFGS / sizeof *CFGS; m++)
-					for (int keyed = 0; keyed < 2; keyed++) {
+					for (int keyed = first >= 0; keyed < 2; keyed++) {
 						if (!vf_case("program [%s] checks-mask=%#x keyed=%d x %d payloads x 3 signature kinds", prog_str(&p), CFGS[m], keyed, NC19P))
 							continue;
 						for (int pl = 0; pl < NC19P; pl++)
@@ -732,6 +743,22 @@ static void enumerate_c19(void)
 			}
 		}
 	}
+}
+
+static void enumerate_c19(void)
+{
+	vk_oct_bytes(7, HKEY, sizeof HKEY);
+	char *jt = vk_oct_jwk(HKEY, sizeof HKEY, NULL, NULL);
+	hset = jwks_create(jt);
+	free(jt);
+	/* accepting programs (return 0): token-mutating calls only, differential against the same checker without callback */
+	static const int RET0[] = { 0 };
+	c19_programs(NCBOPS, vf_thorough ? 4 : 2, RET0, 1, -1);
+	/* ... and programs that start by selecting the key the baseline already has (keyed baseline only) */
+	c19_programs(NCBOPS, vf_thorough ? 2 : 1, RET0, 1, 17);
+	/* vetoing programs: whatever the callback did to the token or to the configuration, verification fails */
+	static const int VETO[] = { 1, -1, 2, 256, INT_MIN };
+	c19_programs(NCBOPS_ALL, vf_thorough ? 3 : 2, VETO, 5, -1);
 	vf_count("=programs", n_progs);
 	vf_count("=states", n_progs);
 	vf_count("evaluations", n_verifies);
